@@ -141,7 +141,11 @@ func (i *openidHandler) ProviderMetadata() openid4vci.ProviderMetadata {
 }
 
 func (i *openidHandler) HandleAccessTokenRequest(ctx context.Context, preAuthorizedCode string) (string, string, error) {
-	flow, err := i.store.FindByReference(ctx, preAuthCodeRefType, preAuthorizedCode)
+	// PreAuthorizedCode is to be used just once: find the flow and burn the code in one step,
+	// so it can't be redeemed by another (concurrent) request.
+	// See https://openid.net/specs/openid-4-verifiable-credential-issuance-1_0.html#section-4.1.1
+	// "This code MUST be short-lived and single-use."
+	flow, err := i.store.FindAndDeleteReference(ctx, preAuthCodeRefType, preAuthorizedCode)
 	if err != nil {
 		return "", "", err
 	}
@@ -168,16 +172,6 @@ func (i *openidHandler) HandleAccessTokenRequest(ctx context.Context, preAuthori
 	err = i.store.StoreReference(ctx, flow.ID, cNonceRefType, cNonce)
 	if err != nil {
 		return "", "", err
-	}
-
-	// PreAuthorizedCode is to be used just once
-	// See https://openid.net/specs/openid-4-verifiable-credential-issuance-1_0.html#section-4.1.1
-	// "This code MUST be short-lived and single-use."
-	err = i.store.DeleteReference(ctx, preAuthCodeRefType, preAuthorizedCode)
-	if err != nil {
-		// Extremely unlikely, but if we return an error here the credential issuance flow will fail without a way to retry it.
-		// Just log it, nothing will break (since they'll be pruned after ttl anyway).
-		log.Logger().WithError(err).Error("Failed to delete pre-authorized code")
 	}
 	return accessToken, cNonce, nil
 }
